@@ -349,3 +349,77 @@ func genNBNS(r *lib.Run, rng *lib.Rand) {
 		}
 	}
 }
+
+// first-level encoded names (independent encoder) and the node-name list
+func nbEncode(name []byte) []byte {
+	out := []byte{0x20}
+	for _, c := range name {
+		out = append(out, 'A'+c/16, 'A'+c%16)
+	}
+	return append(out, 0)
+}
+
+func genNBName(r *lib.Run, rng *lib.Rand) {
+	N := 1200
+	if r.Thorough() {
+		N = 20000
+	}
+	for i := 0; i < N; i++ {
+		// encode: names of 0..20 bytes, ASCII and arbitrary bytes
+		n := rng.Intn(21)
+		if rng.Chance(40) {
+			n = rng.Pick(15, 16, 17)
+		}
+		name := genLabel(rng, n, rng.Pick(0, 0, 2))
+		if rng.Chance(20) && n > 0 {
+			name[rng.Intn(n)] = ' '
+		}
+		r.Do("nbenc", lib.Hex(name))
+		r.Stat("class.nbenc", 1)
+		// decode: valid encodings of 16-byte names (ASCII / every byte value), with and without scope, mutated, truncated
+		raw := genLabel(rng, 16, rng.Pick(0, 2))
+		for j := 12 + rng.Intn(4); j < 16 && rng.Bool(); j++ {
+			raw[j] = ' '
+		}
+		enc := nbEncode(raw)
+		class := "valid"
+		switch rng.Intn(8) {
+		case 0:
+			enc = enc[:rng.Intn(len(enc)+1)]
+			class = "truncated"
+		case 1:
+			enc[rng.Intn(len(enc))] = rng.Byte()
+			class = "mutated"
+		case 2:
+			enc = append(enc[:33], append([]byte{3, 'l', 'a', 'n'}, 0)...) // scope id
+			class = "scoped"
+		case 3:
+			enc[1+rng.Intn(32)] = byte(rng.Pick('@', 'Q', 'a', 0, 255))
+			class = "non-nibble-char"
+		}
+		r.Do("nbdec", lib.Hex(enc), lib.Hex(spare(rng)))
+		r.Stat("class.nbdec."+class, 1)
+	}
+	for b := 0; b < 256; b++ { // every byte value at every position parity
+		raw := []byte("ABCDEFGHIJKLMNOP")
+		raw[b%16] = byte(b)
+		r.Do("nbdec", lib.Hex(nbEncode(raw)), "-")
+		r.Do("nbenc", lib.Hex(raw))
+	}
+	r.Stat("class.nbdec.every-byte", 256)
+	// whole node-name list
+	for i := 0; i < N; i++ {
+		n := rng.Intn(7)
+		b := nodeStatus(rng, n, rng.Pick(46, 0, 1, 2, 3))
+		switch rng.Intn(6) {
+		case 0:
+			b = b[:rng.Intn(len(b)+1)]
+		case 1:
+			if len(b) > 0 {
+				b[0] = byte(rng.Pick(0, 1, n+1, n+2, 255))
+			}
+		}
+		r.Do("nna", lib.Hex(b))
+	}
+	r.Stat("class.nna", int64(N))
+}
